@@ -6,6 +6,7 @@ import (
 	"encoding/hex"
 	"fmt"
 	"math"
+	"regexp"
 	"strconv"
 	"strings"
 	"time"
@@ -677,14 +678,11 @@ func castFromText(s string, t typ) (any, error) {
 		}
 		return b.Bytes, nil
 	case tTimestamp:
-		var ts pgtype.Timestamp
-		if err := ts.DecodeText(sharedConnInfo, []byte(strings.TrimSpace(s))); err != nil {
-			return nil, errf("22007", "invalid input syntax for type timestamp: %q", s)
+		ts, err := parseTimestamp(s)
+		if err != nil {
+			return nil, err
 		}
-		if ts.InfinityModifier != pgtype.None {
-			return nil, unsupportedf("infinite timestamps")
-		}
-		return ts.Time.UTC(), nil
+		return ts, nil
 	}
 	if t.isArray() {
 		var ut pgtype.UntypedTextArray
@@ -970,4 +968,35 @@ func dumpValue(sb *strings.Builder, v any) {
 	default:
 		fmt.Fprintf(sb, "%v", x)
 	}
+}
+
+var tsZoneRE = regexp.MustCompile(`(Z|z|[+-]\d{2}(:?\d{2}(:?\d{2})?)?)$`)
+
+// parseTimestamp parses the input syntax of "timestamp without time zone" (ISO forms only).
+// As in PostgreSQL, a time zone suffix is accepted and silently ignored.
+func parseTimestamp(in string) (time.Time, error) {
+	s := strings.TrimSpace(in)
+	bad := errf("22007", "invalid input syntax for type timestamp: %q", in)
+	switch strings.ToLower(s) {
+	case "infinity", "-infinity":
+		return time.Time{}, unsupportedf("infinite timestamps")
+	case "now", "today", "tomorrow", "yesterday", "epoch":
+		return time.Time{}, unsupportedf("special timestamp input %q", s)
+	}
+	if strings.HasSuffix(s, " BC") {
+		return time.Time{}, unsupportedf("BC timestamps")
+	}
+	if len(s) > 10 {
+		if loc := tsZoneRE.FindStringIndex(s[10:]); loc != nil {
+			s = strings.TrimSpace(s[:10+loc[0]])
+		}
+	}
+	s = strings.Replace(s, "T", " ", 1)
+	for _, layout := range []string{"2006-01-02 15:04:05.999999999", "2006-01-02 15:04", "2006-01-02"} {
+		if ts, err := time.Parse(layout, s); err == nil {
+			// PostgreSQL stores microseconds (rounded)
+			return ts.Round(time.Microsecond).UTC(), nil
+		}
+	}
+	return time.Time{}, bad
 }
